@@ -16,6 +16,14 @@ func main() {
 		os.Exit(2)
 	}
 	prop, tier := os.Args[1], os.Args[2]
+	if tier == "race" {
+		// race-detector build: run the concurrent drivers only (no judgement); data races are
+		// reported by the Go runtime on stderr
+		if fn := checks.RaceDrivers[prop]; fn != nil {
+			fn()
+		}
+		os.Exit(0)
+	}
 	if tier != "quick" && tier != "thorough" {
 		fmt.Fprintln(os.Stderr, "tier must be quick or thorough")
 		os.Exit(2)
